@@ -350,7 +350,7 @@ bool DynamicBitset::operator ==( const DynamicBitset& other) const noexcept( tru
 bool DynamicBitset::operator []( size_t pos) const noexcept( false)
 {
 
-   if (pos > mData.size())
+   if (pos >= mData.size())
       throw std::out_of_range( "position is behind end of vector");
 
    return mData[ pos];
